@@ -115,6 +115,7 @@ type Obj struct {
 	T     types.Type // content type (struct / array elem container / scalar)
 	IsArr bool
 	Fresh bool // allocated during this function (not visible to caller before)
+	Sym   bool // identity unknown: placeholder created by a havoc (contract result, modifies, loop target)
 }
 
 func (o *Obj) String() string { return fmt.Sprintf("%s#%d", o.Name, o.ID) }
